@@ -27,6 +27,7 @@
 //	bid-escrow         extBidOffer_… (status locked) base        bidder (in totals, not a holding)
 //
 // Cross-check records (decoded, checked for sign, never summed): st__e_<val>_<deleg>, st__t_<val>,
+// rwz_<val>_<interval>, rwcum_balance_/rwcum_withdrawn_<val>, rwcum_tdist (validator reward records),
 // propFunds_i_<id>_<funder> (per-funder shares of an escrow; finalising two proposals in one block leaves
 // the second one's shares behind as dead records, so they are not the measure of the escrow). Everything else that is known (validator reward records rwz_/rwcum_/rwaddr_/ri_,
 // the claims counter delegRwz_total_rewards, options g_, evidence es__, trackers etht_/ethfailed_/
@@ -64,10 +65,12 @@ const (
 	StakeValDeleg  = "stake-val-deleg"
 	StakeValTotal  = "stake-val-total"
 	ProposalFunder = "proposal-funder"
-	ClaimsCounter  = "claims-counter"
-	notValueClass  = "not-value"
-	feePoolRawKey  = "00000000000000000000"
-	DelegationPool = "00000000000000000001"
+	// ValidatorRewardRecord: rwz_ / rwcum_ amounts, decoded for the sign check only
+	ValidatorRewardRecord = "validator-reward-record"
+	ClaimsCounter         = "claims-counter"
+	notValueClass         = "not-value"
+	feePoolRawKey         = "00000000000000000000"
+	DelegationPool        = "00000000000000000001"
 	// SupplyAddrRaw is the raw TotalSupplyAddr of the ethereum and bitcoin chain-driver options.
 	SupplyAddrRaw = "oneledgerSupplyAddress"
 )
@@ -254,9 +257,12 @@ func init() {
 		{"extBidOffer_", hBidOffer},
 		{"extBidConv", notValue("extBidConv")},
 		// validator reward records are claims on the rewards pool's balance: counting them would double count
-		{"rwz_", notValue("rwz_")},
+		{"rwz_", hRewardRecord},
 		{"ri_", notValue("ri_")},
 		{"rwaddr_", notValue("rwaddr_")},
+		{"rwcum_balance_", hRewardRecord},
+		{"rwcum_withdrawn_", hRewardRecord},
+		{"rwcum_tdist", hRewardRecord},
 		{"rwcum_", notValue("rwcum_")},
 		{"g_", notValue("g_")},
 		{"es__", hEvidence},
@@ -511,6 +517,19 @@ func hBidOffer(l *Ledger, key, rest string, v []byte) error {
 	// 1 = BidAmountLocked: the bidder's coins were taken from its balance and are held by the offer
 	locked := o.AmountStatus == 1
 	l.add(Entry{Key: key, Class: BidEscrow, Cur: o.Amount.Currency, Owner: "bidconv:" + o.BidConvId, Amt: a, InTotal: locked})
+	return nil
+}
+
+// hRewardRecord decodes a validator reward record (interval amounts, matured and withdrawn totals, total
+// distributed). They are claims on the rewards pool's balance and never summed; they are decoded so that
+// "no stored amount is negative" covers them too.
+func hRewardRecord(l *Ledger, key, rest string, v []byte) error {
+	l.NotValue["validator-reward-record"]++
+	a, err := amtJSON(v)
+	if err != nil {
+		return err
+	}
+	l.add(Entry{Key: key, Class: ValidatorRewardRecord, Cur: "OLT", Amt: a})
 	return nil
 }
 
